@@ -12,6 +12,9 @@ def run(pid, tier):
         if pid in ("C03", "C07", "C15"):
             import dns_rig
             return dns_rig.check(pid, tier)
+        if pid == "C17":
+            import radv_check
+            return radv_check.check(pid, tier)
         if pid == "C08":
             import acl_check
             return acl_check.check(pid, tier)
